@@ -252,9 +252,29 @@ def _fit_tilt_seg(chk, f, p, opd, ptt, clause):
                         es = da[2][0].single_atom()
                         if es is not None and is_app(es, 'einsum'):
                             good = es[2][1] == nf.index(ptt, Slice(3 * k + 1, 3 * k + 3))
+                        elif es is not None and is_app(es, ('matmul', 'dot', 'tensordot', 'inner')) and len(es[2]) >= 2:
+                            # coefficients @ rows: the rows must be the two tilt rows of this segment's block (the whole block
+                            # would take the fitted piston out as well, which is recorded nowhere)
+                            rows = [x for x in es[2][:2] if isinstance(x, Poly) and x.single_atom() is not None and
+                                    x.single_atom()[0] == 'idx' and Poly.atom(x.single_atom()[1]) == ptt]
+                            rows = [nv(x) for x in rows] or [nv(x) for x in es[2][:2] if isinstance(x, Poly) and
+                                                             ptt.single_atom() in nf.value_atoms(x)]
+                            if any(x == nf.index(ptt, Slice(3 * k + 1, 3 * k + 3)) for x in rows):
+                                good = True
+                            elif any(x == nf.index(ptt, Slice(3 * k, 3 * k + 3)) for x in rows):
+                                good = False
+                            else:
+                                good = None
                         else:
                             # the ramp written out: c[1]*basis[3k+1] + c[2]*basis[3k+2] (each coefficient with its own row)
                             good = _explicit_ramp(da[2][0], ptt, k)
+                            if good is None:
+                                inner_ramps = [x for x in nf.value_atoms(da[2][0]) if is_app(x, 'einsum') and len(x[2]) > 1
+                                               and x[2][1] == nf.index(ptt, Slice(3 * k + 1, 3 * k + 3))]
+                                if inner_ramps and da[2][0] != Poly.atom(inner_ramps[0]):
+                                    # the fitted ramp is in there, but it is not what is subtracted: it was altered (de-meaned,
+                                    # scaled, clipped) after the fit while the recorded angles stay those of the fit
+                                    good = False
                         if good is not None:
                             oko = good if oko is None else (oko and good)
     chk.ob(clause, 'D-flow', f.key, 'segmented: each segment is fitted against its own three basis rows', okl, det, f.loc())
